@@ -276,6 +276,12 @@ class ExprMixin:
             c = self.src.consts[n]
             if isinstance(c, ast.Constant):
                 return self.ev_Constant(c, st)
+            if all(isinstance(x, (ast.Constant, ast.BinOp, ast.UnaryOp, ast.operator, ast.unaryop)) for x in ast.walk(c)) \
+                    and all(isinstance(x.value, int) and not isinstance(x.value, bool) for x in ast.walk(c) if isinstance(x, ast.Constant)):
+                # a module-level integer constant written as arithmetic on literals (e.g. 1024 ** 5): folded
+                v = eval(compile(ast.Expression(c), '<const>', 'eval'), {'__builtins__': {}}, {})
+                if isinstance(v, int):
+                    return [(SInt(v), st)]
         if n in self.src.funcs or n in self.contracts:
             return [(SFunc('global', n), st)]
         if n in self.src.classes:
